@@ -163,6 +163,16 @@ func solveOne(L *Loaded, rep *vc.FuncReport, ob *vc.Obligation, timeout, seed in
 	base := append([]*smt.Term{}, rep.Assumptions[:ob.NAssume]...)
 	base = append(base, ob.PC)
 	finish := func(o outcome) {
+		if o.verdict == smt.Sat && ob.Prefer != nil {
+			// look for a counterexample in which the violation is observable (e.g. a stray write
+			// that actually changes the byte); keep the first model if there is none
+			scriptMu.Lock()
+			as := append(append([]*smt.Term{}, base...), X.Not(ob.Goal), ob.Prefer)
+			scriptMu.Unlock()
+			if o2 := runQuery(L, as, gets, 10, seed); o2.verdict == smt.Sat {
+				o = o2
+			}
+		}
 		ob.Verdict = o.verdict.String()
 		ob.Solver = o.solver
 		ob.Raw = o.raw
